@@ -159,8 +159,10 @@ class C11(Check):
                 if props and src.chance(0.5) and props[-1]["name"] not in deps:
                     deps[0] = props[-1]["name"]
                 reads = list(deps)
+            style = src.choice(["ctor", "ctor", "getter", "setter", "deleter"])
             props.append({"name": name, "cache": src.chance(0.65), "invalidated_by": deps, "reads": reads,
-                          "overridable": True, "style": src.choice(["ctor", "ctor", "getter", "setter", "deleter"])})
+                          # (one in five cannot be assigned at all: the assignment fails and must discard nothing)
+                          "overridable": style == "setter" or not src.chance(0.2), "style": style})
         spec = {"attrs": attrs, "props": props, "eager": src.chance(0.4),
                 "post_init_bump": src.choice([None, None, "a", "b"]),
                 "post_init_reads": src.sample([p["name"] for p in props], src.randint(0, len(props)))}
@@ -220,7 +222,7 @@ class C11(Check):
         if k == "read":
             op["name"] = src.choice(pnames)
         elif k == "override":
-            cands = [p["name"] for p in spec["props"] if not p["invalidated_by"]] or None
+            cands = [p["name"] for p in spec["props"] if not p["invalidated_by"] or not p.get("overridable", True)] or None
             if not cands:
                 op["k"], op["name"] = "read", src.choice(pnames)
             else:
@@ -378,6 +380,15 @@ class C11(Check):
                                 {"op": op, "got": strip_addr(repr(out.value))[:200], "want": strip_addr(repr(want))[:200]}, idx)
             return
         if k == "override":
+            if not ok:
+                # a refused assignment (the property is neither overridable nor has a setter) is a failed mutation
+                for p in props_for(spec, X):
+                    n = p["name"]
+                    before = slots_before.get(n, NOSLOT)
+                    if before is not NOSLOT and X.__dict__.get(n, NOSLOT) is not before:
+                        ctx.violate({"entry": "override", "inplace": True, "outcome": out.status,
+                                     "invariant": "unrelated_or_failed_mutation_discards_nothing", "prop_cached": p["cache"]},
+                                    {"op": op, "prop": n}, idx)
             return
         closure = self.closure(spec, X, mutated) if ok else []
         kinds = []
